@@ -93,6 +93,7 @@ Rel(op, a, b, n) ==
       [] op = "assert_positive" -> Fits(a, n)
       [] op = "to_bits" -> Fits(a, n)
       [] op = "bool" -> a \in {0, 1}
+      [] op = "index" -> a >= 0 /\ a < b
       [] op = "assert_range" -> TRUE   \* handled by RelRange
 
 RelRange(x, lo, hi) == lo <= x /\ x < hi
